@@ -372,6 +372,15 @@ func (t QualifiedRule) serializeTo(writer io.StringWriter) {
 func (t AtRule) serializeTo(writer io.StringWriter) {
 	writer.WriteString("@")
 	writer.WriteString(serializeIdentifier(t.AtKeyword))
+	if len(t.Prelude) != 0 {
+		firstType := t.Prelude[0].Kind().String()
+		if literal, ok := t.Prelude[0].(Literal); ok {
+			firstType = literal.Value
+		}
+		if badPairs[[2]string{"at-keyword", firstType}] {
+			writer.WriteString("/**/") // the prelude would fuse with the at-keyword
+		}
+	}
 	serializeTo(t.Prelude, writer)
 	if t.Content == nil {
 		writer.WriteString(";")
